@@ -100,7 +100,9 @@ class World:
         s.cap = cap
         s.pfx = '@s%d_' % N
         s.heap_lens = tuple(heap_lens)
-        s.vm = VM(mod, opts)
+        o2 = dict(merge_calls=('insert_ii', 'Hex$u20$as$u20$core..clone..Clone', 'drop_in_place$LT$sodg..Hex'))
+        o2.update(opts or {})
+        s.vm = VM(mod, o2)
         s.mcap = min(cap, NSLOT)      # members that can matter under Inv (distinct ids < cap)
         s._discover()
 
@@ -241,11 +243,18 @@ class World:
             s.wr(st, arr + i, b, 1)
         st = s.call1(st, '@hex_inline', sc, arr, hx.ilen).st
         imgs = [st.mem.read_cells(sc, s.sz_hex)]
+        hx.bufs = []
         for k, L in enumerate(hx.heap_lens):
             src = s.scratch(st, L, 'hexsrc')
             for i, b in enumerate(hx.hb[L]):
                 s.wr(st, src + i, b, 1)
+            before = set(st.mem.pages)
             st = s.call1(st, '@hex_vector', sc + (k + 1) * s.sz_hex, src, L).st
+            for pg in set(st.mem.pages) - before:
+                a = st.mem.pages[pg]
+                if a.kind == 'heap' and a.live and a.size == L:
+                    a.name = 'databuf.%s.%d' % (hx.name, L)
+                    hx.bufs.append(a.base)
             imgs.append(st.mem.read_cells(sc + (k + 1) * s.sz_hex, s.sz_hex))
         img = imgs[-1]
         for k in reversed(range(nv - 1)):
@@ -278,6 +287,16 @@ class World:
         for b in range(NSLOT):
             s.wr(st, s.a_ctr(b), y.ctr[b], 8)
         s.wr(st, s.f_nextv, y.pos, 8)
+        # bytes the real code leaves uninitialised inside the arenas (padding, unused tails, the
+        # inactive part of an enum) become arbitrary *initialised* bytes: a guarded store at a
+        # symbolic address must be able to say "unchanged" about them (stated in DESIGN.md)
+        import itertools
+        for base in (s.a_vertices, s.a_stores, s.a_branches):
+            a = st.mem.lookup(base)
+            a2, _ = st.mem.find(a.base, a.size, True)
+            for off in range(a2.size):
+                if a2.cells[off] is None:
+                    a2.cells[off] = (z3.BitVec('pad!a%d_%d' % (base >> 16, off), 8), 0)
         st.steps = 0
         return st, y
 
